@@ -18,7 +18,7 @@ Aff == INSTANCE Affinity
 AffRat(a, b) ==
     IF a.type \in Aff!TimeKinds \/ b.type \in Aff!TimeKinds
     THEN Aff!TimeIoU(TimeExtent(a, Aff!FMAXT), TimeExtent(b, Aff!FMAXT))
-    ELSE Aff!BoxIoU(a.coordinates, b.coordinates)
+    ELSE Aff!RectIoU(a, b)            \* boxes and rectilinear (multi-)polygons, interior rings included
 RECURSIVE Gcd(_, _)
 Gcd(a, b) == IF b = 0 THEN a ELSE Gcd(b, a % b)
 Lcm(a, b) == (a \div Gcd(a, b)) * b
@@ -66,9 +66,18 @@ OptimalOf(M, W, n, m, tol) ==
 (* in:  [kind |-> "lat", src, tgt (lattice geometries)] | [kind |-> "rnd", seed, ks, kt (kinds)]                 *)
 (* out: runs (one per exact unit) of [raised, m : <<[s, t, a]>>, aff : matrix of compute_affinity of every pair] *)
 (*      a and aff entries are observed doubles [l, h, r] as in Affinity                                          *)
+(* kind "twin": enumerated lists (src, tgt as for "lat") of geometries of DIFFERENT kinds whose coordinate literals  *)
+(* are identical (TimeInterval [a, b] / Point [a, b]; a LineString / the MultiPoint of its vertices; a Polygon ring /  *)
+(* the MultiLineString through the same points), with positive buffers: judged on the observed matrix, like "rnd".    *)
+(* Every case also says where each geometry object comes from (in.sp, in.tp, one code per element): 0 constructed,   *)
+(* 1 an equal geometry elsewhere was used in a geometry operation and then model_copy(update = coordinates) gave this *)
+(* one, 2 the same by attribute assignment, 3 a deep copy of a used geometry.  The affinity of a pair is a function   *)
+(* of the two geometries as values: no clause looks at the provenance, and out.aff is computed on equal geometries     *)
+(* constructed afresh.                                                                                               *)
 IsLat(o) == o.in.kind = "lat"
-NSrc(o) == IF IsLat(o) THEN Len(o.in.src) ELSE Len(o.in.ks)
-NTgt(o) == IF IsLat(o) THEN Len(o.in.tgt) ELSE Len(o.in.kt)
+HasGeoms(o) == o.in.kind \in {"lat", "twin"}
+NSrc(o) == IF HasGeoms(o) THEN Len(o.in.src) ELSE Len(o.in.ks)
+NTgt(o) == IF HasGeoms(o) THEN Len(o.in.tgt) ELSE Len(o.in.kt)
 N20(l)  == l[2] * 1048576 + l[3] * 16 + (l[4] \div 4096)                  \* floor of a value of [0,1] in units of 2^-20
 ObservedW(o, run) == [i \in 1..NSrc(o) |-> [j \in 1..NTgt(o) |-> N20(run.aff[i][j].l)]]
 AffOk(o, run) == \A i \in 1..NSrc(o), j \in 1..NTgt(o) : Aff!InUnit(run.aff[i][j])
